@@ -187,6 +187,15 @@ class Lib:
             return SRange(a[0].t, a[1].t)
         raise Undecided('range with symbolic step')
 
+    def _spent(self, I, gen):
+        '''a generator expression bound to a name yields its elements ONCE: the second consumer finds it empty (specifications do not consume)'''
+        if getattr(gen, 'consumed', False):
+            self.use('a generator expression consumed a second time is empty')
+            return True
+        if not I.in_spec:
+            gen.consumed = True
+        return False
+
     def b_enumerate(self, I, xs, start=0):
         if isinstance(xs, dict):
             xs = list(xs.keys())
@@ -223,6 +232,8 @@ class Lib:
                 return SV(BOOL, z3.ForAll([i], z3.Implies(rng, body)) if universal
                           else z3.Exists([i], z3.And(rng, body)))
             raise Undecided('any/all of a non-generator')
+        if self._spent(I, gen):
+            return universal
         node = gen.node
         bound, dom, scope = self.bind_generators(I, node.generators, gen.scope)
         if bound is None:      # concrete expansion
@@ -406,6 +417,8 @@ class Lib:
         if isinstance(xs, SV) and xs.typ.kind == 'Set':
             return xs
         if isinstance(xs, GenExp):
+            if self._spent(I, xs):
+                return set()
             return self.comprehension(I, xs.node, xs.scope, 'set')
         if isinstance(xs, SMapped):
             return self.image(I, xs.f, xs.xs, 'set')
@@ -430,6 +443,8 @@ class Lib:
         if isinstance(xs, SV) and xs.typ.kind == 'Seq':
             return xs
         if isinstance(xs, GenExp):
+            if self._spent(I, xs):
+                return []
             return self.comprehension(I, xs.node, xs.scope, 'list')
         if isinstance(xs, SV) and xs.typ.kind in ('Set', 'Map'):
             # every element exactly once, in an order the contract cannot rely on
@@ -450,6 +465,8 @@ class Lib:
         if isinstance(xs, (list, tuple)):
             return tuple(xs)
         if isinstance(xs, GenExp):
+            if self._spent(I, xs):
+                return ()
             items = self.comprehension(I, xs.node, xs.scope, 'list')
             if isinstance(items, list):
                 return tuple(items)
@@ -1159,7 +1176,7 @@ class Lib:
                 recv.extend(args[0])
                 return None
             if isinstance(args[0], GenExp):
-                items = self.comprehension(I, args[0].node, args[0].scope, 'list')
+                items = [] if self._spent(I, args[0]) else self.comprehension(I, args[0].node, args[0].scope, 'list')
                 if isinstance(items, list):
                     recv.extend(items)
                     return None
